@@ -156,19 +156,21 @@ fn mixed_def(seed: u64, i: usize) -> Def {
     gen::mixed(&mut rng, &format!("D{i}"), i)
 }
 
+// A discrepancy between the graph and the reference that changes which tokens are produced also
+// changes where errors start and end (and vice versa), so both checks adopt both rule groups.
 pub fn check_c01(seed: u64, i: usize) -> DefReport {
-    generic_product(seed, i, &["C01"])
+    generic_product(seed, i, &["C01", "C02"], "C01")
 }
 pub fn check_c02(seed: u64, i: usize) -> DefReport {
-    generic_product(seed, i, &["C02"])
+    generic_product(seed, i, &["C01", "C02"], "C02")
 }
 
-fn generic_product(seed: u64, i: usize, props: &[&str]) -> DefReport {
+fn generic_product(seed: u64, i: usize, props: &[&str], as_prop: &str) -> DefReport {
     let def = mixed_def(seed, i);
     let a = analyze::run_generate(&def);
     let mut rep = base_report(&def, &a);
     if rep.accepted {
-        product_report(&def, &a, Some(props), None, &mut rep);
+        product_report(&def, &a, Some(props), Some(as_prop), &mut rep);
     }
     rep.sample = Some(def_sample(&def, &a, &rep));
     rep
